@@ -38,6 +38,7 @@ class SimRandom:
         self.n_poisson = 0
         self.n_calls_total = 0
         self.budget = budget
+        self.default_budget = budget
         self.spent = 0
         self.u_over = {}         # uniform ordinal -> value
         self.p_over = {}         # poisson ordinal -> value
@@ -54,8 +55,8 @@ class SimRandom:
         self.u_over = dict(u_over or {})
         self.p_over = dict(p_over or {})
         self.spent = 0
-        if budget is not None:
-            self.budget = budget
+        # a budget never outlives the op it was computed for
+        self.budget = budget if budget is not None else self.default_budget
 
     def _spend(self, n):
         self.spent += n
